@@ -90,3 +90,60 @@ Proof.
   specialize (S _ _ s 2%nat 1%nat 2%nat I). cbv zeta in S. rewrite En in S.
   apply (S 3%nat 1%N); [lia|simpl; lia|vm_compute; reflexivity|]. exact E4.
 Qed.
+
+(* ---------- the window length as a function of the height: the hard-fork boundary ----------
+   Blockchain.GetMaxTraceableBlocks (blockchain.go): the configuration value while the chain stands below the Echidna
+   height E, the value the native Policy contract holds from E on ([pol h]: the genesis setting at first, only ever
+   lowered by the committee).  It is never 0. *)
+Definition mtb_at (E cfg : nat) (pol : nat -> nat) (h : nat) : nat := if (h <? E)%nat then cfg else pol h.
+
+Lemma mtb_at_pos E cfg pol h : (0 < cfg)%nat -> (forall x, 0 < pol x)%nat -> (0 < mtb_at E cfg pol h)%nat.
+Proof. intros C P. unfold mtb_at. destruct (h <? E)%nat; auto. Qed.
+
+Lemma gc_target_mono height m m' period : (m <= m')%nat -> (gc_target height m' period <= gc_target height m period)%nat.
+Proof.
+  intros L. unfold gc_target. destruct period as [|q]; [simpl; lia|].
+  apply Nat.mul_le_mono_r. apply Nat.div_le_mono; lia.
+Qed.
+
+Section Boundary.
+  Variable nb : hash -> bytes.
+
+  (* for EVERY height p of the persisted chain — below, at and above the hard-fork height — a collection whose window
+     length m' is at least the length in force at p keeps every state of p's traceable window [p - mtb_at p, p] and
+     re-establishes the invariant; with the getter evaluated at the persisted height itself m' = mtb_at p *)
+  Theorem gc_safe_at_every_height H g s E cfg pol period m' :
+    Inv nb MGC H g s ->
+    let p := s_n s in
+    let w := mtb_at E cfg pol p in
+    (w <= m')%nat ->
+    let G := gc_target p m' period in
+    (forall j h, (p - w <= j <= p)%nat -> (g <= j)%nat -> 0 < occT h (trie_at H j) ->
+       lookup (gc (Z.of_nat G) (s_tbl s)) h = lookup (s_tbl s) h /\ lookup (s_tbl s) h <> None) /\
+    exists s', step true MGC s (EGC G) = Some s' /\ Inv nb MGC H (Nat.max g G) s'.
+  Proof.
+    intros I p w L G.
+    pose proof (gc_safe_wrt_persisted nb H g s m' period I) as AB. cbv zeta in AB. destruct AB as [A B].
+    split; [|exact B]. intros j h Hj Gj P. subst p w G. apply (A j h); [lia|exact Gj|exact P].
+  Qed.
+End Boundary.
+
+(* a getter that yields 0 at the last height before the hard fork (the Policy value read before the contract has
+   initialised it): the collection at that height is NOT safe for the window the configuration promises *)
+Definition gc_with_zero_window_statement (nb : hash -> bytes) : Prop :=
+  forall H g s cfg period,
+    Inv nb MGC H g s -> (0 < cfg)%nat ->
+    let p := s_n s in
+    let G := gc_target p 0 period in
+    forall j h, (p - cfg < j <= p)%nat -> (g <= j)%nat -> 0 < occT h (trie_at H j) ->
+      lookup (gc (Z.of_nat G) (s_tbl s)) h <> None.
+
+Theorem gc_with_zero_window_refuted : ~ gc_with_zero_window_statement (fun h => h).
+Proof.
+  intros S. destruct (run_inv_init (fun h => h) MGC pw_evs pw_ok) as [s [R I]].
+  assert (E : s_n s = 4%nat /\ lookup (gc 4 (s_tbl s)) 1%N = None).
+  { vm_compute in R. inv R. vm_compute. split; reflexivity. }
+  destruct E as [En E4].
+  specialize (S _ _ s 2%nat 1%nat I ltac:(lia)). cbv zeta in S. rewrite En in S.
+  apply (S 3%nat 1%N); [lia|simpl; lia|vm_compute; reflexivity|]. exact E4.
+Qed.
